@@ -293,6 +293,11 @@ def build(tier):
     s.add(e1 > 127, z3.Not(e1 > 128))
     rep.add(core.smt("C15/canary/overflow-threshold", PROP, s, text="canary: thresholds emax and emax+1 differ", expect="sat", kind="canary", budget_s=10))
     rep.replayers["C15/"] = native_replay
+    # bounded stand-in with the real mpmath (the assumed _normalize contract, mpf2float, the backend protocol); never proofs
+    from vf.contracts import C15_bounded
+
+    C15_bounded.run(rep, tier)
+    rep.replayers["C15/bounded"] = C15_bounded.replay
     return rep
 
 
@@ -306,6 +311,9 @@ def main(tier, only=None):
 def replay(path):
     d = json.load(open(path))
     o = core.Obligation(id=d["obligation"], prop=PROP, model=d.get("model"), meta=d.get("meta") or {})
+    if (o.meta or {}).get("part") == "bounded":
+        print(json.dumps(o.meta.get("fails"), indent=1, default=str))
+        return 1 if o.meta.get("fails") else 0
     info = native_replay(o)
     print(json.dumps(info, indent=1, default=str))
     return 1 if info.get("replayed") else 0
